@@ -36,6 +36,9 @@ use borsh::BorshSerialize;
 use crate::context::{Ctx, Element, Exponent};
 use crate::util::StrandError;
 
+#[cfg(strand_verif)]
+pub mod verif;
+
 /// Interface to zero knowledge proof functionality.
 pub struct Zkp<C: Ctx> {
     pub(crate) ctx: C,
